@@ -121,7 +121,7 @@ CHECKS = {
         design="DESIGN.md 6 C16"),
     "C18": dict(
         technique="Coq proof (rejection for every row position and surrounding content; results only after all checks) + check_strand and _validate_split translated from /repo on every run and proved equal to the model's checks + malformed-input stream",
-        text="Theorems c18_dup/strand/column/chroms/no_result over the model of the import checks (any position of the offending row); c18_code_results_after_validation (Props/C17code.v): in every execution of the translated main block, whatever fails, a density job - the only writer of result files - starts only after PreProcessor.process (import, validation, split) and the overlap stage have completed (flow_sound); c18_code_check_strand / c18_code_validate_split / c18_code_te_columns: the code's strand whitelist, chromosome check and explicit TE-column test, as translated, "
+        text="Theorems c18_dup/strand/column/chroms/no_result over the model of the import checks (any position of the offending row); c18_code_results_after_validation (Props/C17code.v): in every execution of the translated main block, whatever fails, a density job - the only writer of result files - starts only after PreProcessor.process (import, validation, split) and the overlap stage have completed (flow_sound), and c18_code_refused_pair_no_density_job: if preprocessing fails, no density job starts at all and the block ends with the exception (the block calls preprocessing at most once: calls_bound_sound); c18_code_check_strand / c18_code_validate_split / c18_code_te_columns: the code's strand whitelist, chromosome check and explicit TE-column test, as translated, "
              "are the model's (the translator also checks that import_filtered_genes calls check_strand and indexes by Gene_Name with verify_integrity=True); one defect inserted at first/last/random (thorough: every) row position "
              "of generated pairs through the real library stages (gene-side defects also in an output directory where the valid pair was processed before, files edited in place with older mtimes) and a sample through the CLI: must raise / exit non-zero with no <genome>_<chrom>.h5 written.",
         design="DESIGN.md 6 C18"),
